@@ -117,8 +117,12 @@ func (t *ReuseConnTransport) exchangeConnCtx(ctx context.Context, payload []byte
 	}
 	resChan := make(chan res, 1)
 
+	// The goroutine below may outlive this call (ctx done). It must not use
+	// payload, which the caller releases as soon as this call returns.
+	workerPayload := copyMsg(payload)
 	go func() {
-		resp, err := t.exchangeConn(payload, c)
+		resp, err := t.exchangeConn(workerPayload, c)
+		pool.ReleaseBuf(workerPayload)
 		resChan <- res{m: resp, err: err}
 		t.releaseConn(c, err)
 	}()
